@@ -99,38 +99,24 @@ def shrink_case(case):
 
 
 def gen_cases(tier, seed):
+    from lib import gen_basis
+    import twoindex
     rng = random.Random(1000003 * seed + 1)
-    cases = []
-    reps = 1 if tier == "quick" else 4
-    for _ in range(reps):
-        for la, lb in itertools.product(range(6), range(6)):
-            big = la + lb >= 7
-            kmax = (2 if big else 3) if tier == "quick" else (3 if big else 4)
-            mmax = 2 if (tier == "quick" or big) else 3
-            sa = gen_shell(rng, l=la, kmax=kmax, mmax=mmax, sph=False)
-            sb = gen_shell(rng, l=lb, kmax=kmax, mmax=mmax, sph=False)
-            if rng.random() < 0.15:
-                sb.coord = list(sa.coord)  # coincident centres
-            cases.append({"kind": "block", "a": sa.to_json(), "b": sb.to_json()})
-    nb = 14 if tier == "quick" else 120
+    cases = [c for c in twoindex.gen_cases(tier, seed, salt=1, lmax_block=5, with_T=False, nb_quick=0, nb_thorough=0,
+                                           block_reps_thorough=4)]
+    for c in cases:
+        c.pop("T", None)
+    nb = 50 if tier == "quick" else 400
     lmax = 3 if tier == "quick" else 5
     for i in range(nb):
         n = 1 + i % 4
-        basis = [gen_shell(rng, lmax=lmax if n <= 2 else min(lmax, 3), kmax=3 if tier == "quick" else 4,
-                           mmax=3) for _ in range(n)]
-        if i % 5 == 0:
-            for s in basis:
-                s.sph = True
-        if i % 7 == 0:
-            for s in basis:
-                s.sph = False
+        basis = gen_basis(rng, n, lmax=lmax if n <= 2 else min(lmax, 3), kmax=4, mmax=3)
         cases.append({"kind": "basis", "basis": [s.to_json() for s in basis]})
-    na = 6 if tier == "quick" else 40
+    na = 16 if tier == "quick" else 120
     for i in range(na):
         n1, n2 = 1 + i % 2, 1 + (i // 2) % 3
-        b1 = [gen_shell(rng, lmax=3, kmax=3, mmax=2) for _ in range(n1)]
-        b2 = [gen_shell(rng, lmax=3, kmax=3, mmax=2) for _ in range(n2)]
-        cases.append({"kind": "asymm", "b1": [s.to_json() for s in b1], "b2": [s.to_json() for s in b2]})
+        both = gen_basis(rng, n1 + n2, lmax=3, kmax=3, mmax=2)
+        cases.append({"kind": "asymm", "b1": [s.to_json() for s in both[:n1]], "b2": [s.to_json() for s in both[n1:]]})
     return cases
 
 
